@@ -338,6 +338,8 @@ structure BuildStmt where
   orderIns : List Str
   vals : List Str
   binds : List (Str × Str)
+  /-- the `pool` binding in effect: the statement's own, else its rule's (evaluated in the statement's scope) -/
+  pool : Str := []
   deriving Repr
 
 structure Manifest where
@@ -388,7 +390,7 @@ def loadStmt (m : Manifest) : Stmt → Except LErr Manifest
       else if !has "command" then .error (.missingCommand n)
       else .ok { m with rules := m.rules ++ [(n, bs)] }
   | .pool n bs =>
-    if (m.pools.any (fun r => r.1 == n)) || n = kw "console" then .error (.duplicatePool n) else
+    -- a second declaration of a pool (or of `console`) is left to clause 6 of the graph checker
     let bs' := bs.map (fun kv => (kv.1, evalStr m.vars kv.2))
     match bs' with
     | [(k, v)] => if k = kw "depth" && isNatLit v then .ok { m with pools := m.pools ++ [(n, bs')] }
@@ -399,24 +401,27 @@ def loadStmt (m : Manifest) : Stmt → Except LErr Manifest
     let binds := b.binds.map (fun kv => (kv.1, evalStr m.vars kv.2))
     -- later bindings of the block shadow earlier ones
     let env := binds.reverse ++ m.vars
-    let pool := lookupVar binds.reverse (kw "pool")
-    if !(pool.isEmpty || pool = kw "console" || m.pools.any (fun r => r.1 == pool)) then .error (.unknownPool pool) else
+    -- `Edge::GetBinding("pool")`: the statement's own binding, else the rule's, evaluated in the statement's scope;
+    -- whether that pool is declared is clause 6 of the graph checker
+    let pool :=
+      if binds.any (fun kv => kv.1 == kw "pool") then lookupVar binds.reverse (kw "pool")
+      else match m.rules.find? (fun r => r.1 == b.rule) with
+        | some r => match r.2.reverse.find? (fun kv => kv.1 == kw "pool") with
+          | some kv => evalStr env kv.2
+          | none => []
+        | none => []
     let ev (ps : List EvalStr) := evalPaths env ps
     let all := ev b.outs ++ ev b.implOuts ++ ev b.ins ++ ev b.implIns ++ ev b.orderIns ++ ev b.vals
     if all.any (·.isEmpty) then .error .emptyPath else
     let cp (ps : List EvalStr) := (ev ps).map canonPath
     .ok { m with builds := m.builds ++ [{ outs := cp b.outs, implOuts := cp b.implOuts, rule := b.rule,
                                             ins := cp b.ins, implIns := cp b.implIns, orderIns := cp b.orderIns,
-                                            vals := cp b.vals, binds := binds }] }
+                                            vals := cp b.vals, binds := binds, pool := pool }] }
   | .dflt ps =>
     let names := evalPaths m.vars ps
     if names.any (·.isEmpty) then .error .emptyPath else
-    let names := names.map canonPath
-    let known (p : Str) := m.builds.any (fun b =>
-      (b.outs ++ b.implOuts ++ b.ins ++ b.implIns ++ b.orderIns ++ b.vals).contains p)
-    match names.find? (fun p => !known p) with
-    | some p => .error (.unknownDefault p)
-    | none => .ok { m with defaults := m.defaults ++ names }
+    -- whether the targets exist is clause 7 of the graph checker
+    .ok { m with defaults := m.defaults ++ names.map canonPath }
   | .incl _ _ => .error .includeUnsupported
 
 def loadStmts : List Stmt → Manifest → Except LErr Manifest
@@ -438,9 +443,10 @@ def nodes (l : List Str) : List String := l.map String.ofList
 
 def BuildStmt.edge (b : BuildStmt) : Edge String :=
   { rule := b.rule, outs := nodes (b.outs ++ b.implOuts), ins := nodes (b.ins ++ b.implIns ++ b.orderIns),
-    vals := nodes b.vals }
+    vals := nodes b.vals, pool := b.pool }
 
 def Manifest.graph (m : Manifest) : Graph String :=
-  { rules := m.rules.map (·.1), edges := m.builds.map BuildStmt.edge, defaults := nodes m.defaults }
+  { rules := m.rules.map (·.1), edges := m.builds.map BuildStmt.edge, defaults := nodes m.defaults,
+    pools := m.pools.map (·.1) }
 
 end MesonModel.Ninja
